@@ -21,7 +21,7 @@ RULE = ("generated assemblies (BsaI/BbsI/BsmBI + 3 other geometries, 1..4 module
         "Non-trivial = at least one cited feature survived into the product; distinct = distinct input sets.")
 ASSUMPTIONS = ["references inside one record are pairwise distinct", "citation qualifiers are well-formed [n] with n in range",
                "uncited extra entries in the product's reference list are not a violation"]
-FLOORS = {"c10_judged": 400, "c10_products_with_surviving_citations": 100, "c10_stripped_comparisons": 100}
+FLOORS = {"c10_judged": 400, "c10_products_with_surviving_citations": 100, "c10_stripped_comparisons": 100, "c10_failed_calls_checked": 200}
 MUST_REACH = ["AssemblyManager._deref_citations", "AssemblyManager._ref_citations"]
 BUDGET_S = {"quick": 900, "thorough": 7200}
 ENZYMES = ["BsaI", "BbsI", "BsmBI", "FokI", "BspQI", "BtgZI"]
@@ -96,6 +96,33 @@ def execute(mat, ctx):
     elif str(plain["product"].seq) != first[0] or _features_wo_citation(plain["product"]) != first[1]:
         ctx.violation("citations-change-the-assembly", "with citations the product %s differs from the product of the same inputs without citations" % (
             "sequence" if str(plain["product"].seq) != first[0] else "features"))
+    # failing calls: a missing module, and a dangling / malformed citation in the element processed last or first;
+    # the citation indices of every input must read the same afterwards
+    rng = gen.rng_for("c10-fail", mat["id"])
+    import warnings as _w
+    V, M = gen.generic_classes(mat["enzyme"])
+    if len(mrecs) > 1:
+        _mon.tag = {"call": "missing-module"}
+        try:
+            with _w.catch_warnings():
+                _w.simplefilter("ignore")
+                V(vrec).assemble(*[M(r) for r in mrecs[1:]])
+        except Exception:
+            pass
+    specs = [mat["vector"]] + list(mat["modules"])
+    if any("citation" in f["quals"] for s in specs for f in s["features"]):
+        j = rng.choice([0, len(specs) - 1])
+        bad = copy.deepcopy(specs[j])
+        bad["features"] = list(bad["features"]) + [{"type": "misc_feature", "parts": [[0, 1, 1]], "quals": {"uid": ["bad"], "citation": [rng.choice(["[99]", "7", "[x]"])]}}]
+        recs = [vrec] + mrecs
+        recs[j] = gen.make_record(bad)
+        _mon.tag = {"call": "bad-citation"}
+        try:
+            with _w.catch_warnings():
+                _w.simplefilter("ignore")
+                V(recs[0]).assemble(*[M(r) for r in recs[1:]])
+        except Exception:
+            pass
     if ctx.counters["c10_products_with_surviving_citations"] > before:
         ctx.nontrivial([mat["enzyme"], mat["vector"]["seq"], [m["seq"] for m in mat["modules"]]])
         ctx.sample({"enzyme": mat["enzyme"], "references_per_record": [len(s.get("refs", [])) for s in [mat["vector"]] + mat["modules"]],
